@@ -172,6 +172,66 @@ func wrongAccessors(r ion.Reader) error {
 	return fmt.Errorf("refused")
 }
 
+// accessorSnapshot calls every value accessor (forward or in reverse order) and renders the results.
+func accessorSnapshot(r ion.Reader, reverse bool) string {
+	calls := []func() string{
+		func() string { return fmt.Sprint(r.Type(), r.IsNull(), r.IsInStruct()) },
+		func() string { v, e := r.IntSize(); return fmt.Sprint(v, e) },
+		func() string { v, e := r.BoolValue(); return fmt.Sprint(v == nil, e) + derefB(v) },
+		func() string { v, e := r.IntValue(); return fmt.Sprint(v == nil, e) + derefI(v) },
+		func() string { v, e := r.Int64Value(); return fmt.Sprint(v == nil, e) + derefI64(v) },
+		func() string { v, e := r.BigIntValue(); return fmt.Sprint(v, e) },
+		func() string { v, e := r.FloatValue(); return fmt.Sprint(v == nil, e) + derefF(v) },
+		func() string { v, e := r.DecimalValue(); return fmt.Sprint(v, e) },
+		func() string { v, e := r.TimestampValue(); return fmt.Sprint(v, e) },
+		func() string { v, e := r.StringValue(); return fmt.Sprint(v == nil, e) + derefS(v) },
+		func() string { v, e := r.SymbolValue(); return fmt.Sprint(v, e) },
+		func() string { v, e := r.ByteValue(); return fmt.Sprint(v, e) },
+		func() string { v, e := r.FieldName(); return fmt.Sprint(v, e) },
+		func() string { v, e := r.Annotations(); return fmt.Sprint(v, e) },
+	}
+	out := make([]string, len(calls))
+	for k := range calls {
+		i := k
+		if reverse {
+			i = len(calls) - 1 - k
+		}
+		out[i] = calls[i]()
+	}
+	return fmt.Sprint(out)
+}
+
+func derefB(v *bool) string {
+	if v == nil {
+		return ""
+	}
+	return fmt.Sprint(*v)
+}
+func derefI(v *int) string {
+	if v == nil {
+		return ""
+	}
+	return fmt.Sprint(*v)
+}
+func derefI64(v *int64) string {
+	if v == nil {
+		return ""
+	}
+	return fmt.Sprint(*v)
+}
+func derefF(v *float64) string {
+	if v == nil {
+		return ""
+	}
+	return fmt.Sprintf("%x", *v)
+}
+func derefS(v *string) string {
+	if v == nil {
+		return ""
+	}
+	return *v
+}
+
 func navDocument(c navCase) ([]byte, error) {
 	if c.Mode == "" || c.Mode == "bytes" {
 		return []byte(c.Bytes), nil
@@ -206,6 +266,7 @@ func cmdNav(in *bufio.Scanner, out *bufio.Writer) error {
 		for _, op := range c.Prog {
 			ev := navEvent{E: "call", Op: op}
 			var obs navObs
+			impure := ""
 			err, pan, site := safely(func() error {
 				switch op {
 				case "Next":
@@ -238,9 +299,23 @@ func cmdNav(in *bufio.Scanner, out *bufio.Writer) error {
 					}
 				}
 				var e error
+				// accessors are pure: what one returns does not depend on which others were called before it
+				a := accessorSnapshot(r, false)
 				obs, e = observe(r)
+				if e == nil {
+					b := accessorSnapshot(r, true)
+					obs2, e2 := observe(r)
+					j1, _ := json.Marshal(obs)
+					j2, _ := json.Marshal(obs2)
+					if a != b || e2 != nil || string(j1) != string(j2) {
+						impure = fmt.Sprintf("accessor results depend on the order of calls: %s / %s", a, b)
+					}
+				}
 				return e
 			})
+			if impure != "" && !pan && err == nil {
+				ev.Res, ev.Msg = "impure", impure
+			}
 			if pan {
 				ev.Res, ev.Msg = "panic", site+": "+err.Error()
 			} else if err != nil {
